@@ -42,3 +42,19 @@ claim("C16", "reference-model monitor: lookup model navigating the same Go data 
       "Generated data maps (nested and typed maps incl. zero-valued entries, structs, nil / typed-nil entries, every scalar kind, keys colliding with builtins) are read through dotted paths of depth 0-4 with '.' and '!.' at every position, with and without a data map; null-safety, the assert form, missing-field errors, number normalisation (exact), identity of containers/functions/decimals and equality of nulls to null are compared with the model.",
       "Trusts the 40-line navigation model; member access on kinds the statement does not name is skipped and counted.",
       "5/C16")
+claim("C07", "reference-model monitor: store-passing evaluator (result, final locals, ordered invocation log) + deep before/after snapshot of the caller's map",
+      "Generated programs over assignments, reads, commas, arrays, (multi-argument) recording calls, conditionals, parentheses and '+' are run one or two per runner and compared with a store-passing reference evaluation in value, in every $-entry left in the map and in the ordered log of recording calls; forbidden assignment targets in eight positions must be errors; every non-$ entry of the caller's map (contents, decimal internals, container identity) is snapshotted before and after, also on general programs over every builtin and data kind, including failing evaluations.",
+      "Trusts the 150-line reference evaluator on its integer/array sub-language and the reflective snapshot as the meaning of 'unchanged'.",
+      "5/C07")
+claim("C08", "self-consistency monitor: repeat/interleave in one process, order permutation across processes, full reflective tree dump before/after",
+      "Each (formula, data) pair is parsed twice (dumps must match), evaluated 5-20 times in fresh runners over freshly built equal data with unrelated parses, evaluations and field analyses in between (value or error text must not change), and the tree's full reflective dump (ids, parents, ranges) must be unchanged afterwards; additionally the same list of pairs is evaluated in forward order in this process and in reverse and strided order in two further processes and the outcomes must agree, which exposes stale caches that are stable within one history.",
+      "Trusts the deep rendering of values; now/toDay formulas are excluded from value comparison.",
+      "5/C08")
+claim("C10", "reference-model monitor (expected read set from an independently parsed tree) + sufficiency by differential evaluation on restricted data",
+      "For generated and systematically nested formulas the reported fields must contain every name/maximal path read outside callee position, nothing but reads and assignment targets, no duplicates, the non-local variant must be that set without $-entries, and member access on non-paths must be refused; evaluating against the full data map and against the map restricted to the reported top-level names plus callee names must give the same outcome.",
+      "Trusts the reference parser and the 50-line read-set walker; assignment targets that are never read are allowed either way.",
+      "5/C10")
+claim("C20", "history replay against an executable model (sequential histories, so linearizability degenerates to replay)",
+      "All operation histories up to length n over 14 operation instances and random histories up to length 40 (SetThis with fresh/shared/nil maps with and without $-entries, SetThisValue, Resolve of generated formulas that read and assign locals and fields, Set, Get) are replayed on a real runner and on a model; after every operation the result, every caller-held map and the auxiliary store must agree with the model.",
+      "Trusts the model (map aliasing, locals as $-keys, separate store) and the reference evaluator for the formulas.",
+      "5/C20")
